@@ -1592,20 +1592,20 @@ fn garbage_case(seed: u64, lane: Lane, trace: bool) -> CaseOut {
 pub fn run(ctx: &Ctx) -> i32 {
     let t = Instant::now();
     let mut rep = Report::default();
-    let g = Group { name: "frame-class", cases: ctx.tier.pick(40_000, 1_500_000), budget_s: ctx.tier.pick(15.0, 500.0), exhaustive: false };
+    let g = Group { name: "frame-class", cases: ctx.tier.pick(40_000, 1_500_000), budget_s: ctx.tier.pick(15.0, 140.0), exhaustive: false };
     run_group(ctx, &mut rep, &g, |_, seed, trace| class_case(seed, trace));
-    let g = Group { name: "frame-fuzz", cases: ctx.tier.pick(60_000, 3_000_000), budget_s: ctx.tier.pick(20.0, 900.0), exhaustive: false };
+    let g = Group { name: "frame-fuzz", cases: ctx.tier.pick(60_000, 3_000_000), budget_s: ctx.tier.pick(20.0, 250.0), exhaustive: false };
     run_group(ctx, &mut rep, &g, |_, seed, trace| fuzz_case(seed, trace));
     let packets = ctx.tier.pick(400, 4000);
-    let g = Group { name: "flood", cases: ctx.tier.pick(800, 10_000), budget_s: ctx.tier.pick(15.0, 600.0), exhaustive: false };
+    let g = Group { name: "flood", cases: ctx.tier.pick(800, 10_000), budget_s: ctx.tier.pick(15.0, 170.0), exhaustive: false };
     run_group(ctx, &mut rep, &g, |_, seed, trace| flood_case(seed, trace, packets));
-    let g = Group { name: "params", cases: ctx.tier.pick(40_000, 2_000_000), budget_s: ctx.tier.pick(15.0, 500.0), exhaustive: false };
+    let g = Group { name: "params", cases: ctx.tier.pick(40_000, 2_000_000), budget_s: ctx.tier.pick(15.0, 140.0), exhaustive: false };
     run_group(ctx, &mut rep, &g, |_, seed, trace| params_case(seed, trace));
-    let g = Group { name: "garbage", cases: ctx.tier.pick(2500, 100_000), budget_s: ctx.tier.pick(15.0, 500.0), exhaustive: false };
+    let g = Group { name: "garbage", cases: ctx.tier.pick(2500, 100_000), budget_s: ctx.tier.pick(15.0, 140.0), exhaustive: false };
     run_group(ctx, &mut rep, &g, |_, seed, trace| garbage_case(seed, Lane::Null, trace));
     #[cfg(feature = "real")]
     {
-        let g = Group { name: "garbage-rustls", cases: ctx.tier.pick(600, 30_000), budget_s: ctx.tier.pick(15.0, 500.0), exhaustive: false };
+        let g = Group { name: "garbage-rustls", cases: ctx.tier.pick(600, 30_000), budget_s: ctx.tier.pick(15.0, 140.0), exhaustive: false };
         run_group(ctx, &mut rep, &g, |_, seed, trace| garbage_case(seed, Lane::Real, trace));
     }
     finish(
